@@ -148,7 +148,9 @@ func main() {
 	errLog = filepath.Join(base, "errors.log")
 	// the responder sees the site under another directory than casket does (a container, a chroot)
 	const backendRoot = "/srv/backend-root"
-	cf := fmt.Sprintf("a.test:8080 {\n\troot %s\n\terrors "+errLog+"\n\tfastcgi /scripted unix:%s\n\tfastcgi / unix:%s {\n\t\text .php\n\t\tsplit .php\n\t\tindex index.php\n\t\tenv FOO bar\n\t\tenv DYN {host}-{method}-{path}\n\t\troot "+backendRoot+"\n\t}\n}\n", root, sock2, sock1)
+	cf := fmt.Sprintf("a.test:8080 {\n\troot %s\n\terrors "+errLog+"\n\tfastcgi /scripted unix:%s\n\tfastcgi / unix:%s {\n\t\text .php\n\t\tsplit .php\n\t\tindex index.php\n\t\tenv FOO bar\n\t\tenv DYN {host}-{method}-{path}\n\t\troot "+backendRoot+"\n\t}\n}\n"+
+		// a second site whose address carries a path: its rule sees the request path with that prefix trimmed
+		"a.test:8080/blog {\n\troot %s\n\tfastcgi / unix:%s {\n\t\text .php\n\t\tsplit .php\n\t\tindex index.php\n\t\troot "+backendRoot+"\n\t}\n}\n", root, sock2, sock1, root, sock1)
 	l, err := kit.Load(cf, filepath.Join(base, "Casketfile"))
 	if err != nil {
 		rep.Broken("load: %v", err)
@@ -313,6 +315,44 @@ func main() {
 				}
 			}
 		}
+	}
+	// the site with a path prefix: the script is located below the rule's root without the prefix
+	for _, tc := range []struct{ target, script, info string }{{"/blog/i.php", "/i.php", ""}, {"/blog/i.php/extra/info?x=1", "/i.php", "/extra/info"}, {"/blog/sub/j.php", "/sub/j.php", ""}, {"/blog/dir/", "/dir/index.php", ""}} {
+		raw := fmt.Sprintf("POST %s HTTP/1.1\r\nHost: a.test:8080\r\nContent-Length: 5\r\n\r\nhello", tc.target)
+		lastMu.Lock()
+		last = nil
+		lastMu.Unlock()
+		rec, pv, _ := kit.Serve(srv, raw)
+		rep.Eval(1)
+		lastMu.Lock()
+		got := last
+		lastMu.Unlock()
+		short := "POST " + tc.target + " on the site a.test:8080/blog"
+		switch {
+		case pv != nil:
+			rep.Violation("C13/request/panic", fmt.Sprint(pv), c13case{short, "", "", ""})
+		case got == nil:
+			rep.Violation("C13/request/responder-got-no-valid-request/site-with-path-prefix", fmt.Sprintf("status %d, body %.80q", rec.Status, rec.Body.String()), c13case{short, "", "responder receives the request", fmt.Sprintf("status %d", rec.Status)})
+		default:
+			var diffs []string
+			if got.env["SCRIPT_FILENAME"] != filepath.Join(backendRoot, tc.script) || got.env["DOCUMENT_ROOT"] != backendRoot {
+				diffs = append(diffs, fmt.Sprintf("SCRIPT_FILENAME %q DOCUMENT_ROOT %q want %q under %q", got.env["SCRIPT_FILENAME"], got.env["DOCUMENT_ROOT"], filepath.Join(backendRoot, tc.script), backendRoot))
+			}
+			wantPT := ""
+			if tc.info != "" {
+				wantPT = filepath.Join(backendRoot, tc.info)
+			}
+			if got.env["PATH_TRANSLATED"] != wantPT {
+				diffs = append(diffs, fmt.Sprintf("PATH_TRANSLATED %q want %q", got.env["PATH_TRANSLATED"], wantPT))
+			}
+			if string(got.body) != "hello" {
+				diffs = append(diffs, fmt.Sprintf("body %q", got.body))
+			}
+			if len(diffs) > 0 {
+				rep.Violation("C13/request/params-or-body-damaged/site-with-path-prefix", strings.Join(diffs, "; "), c13case{short, "", "the script below the rule's root, without the site's path prefix", strings.Join(diffs, "; ")})
+			}
+		}
+		rep.Class("request/site-with-path-prefix")
 	}
 	rep.Sample(map[string]interface{}{"direction": "request", "example": "POST /i.php/extra/info with X-Big of 65 478 bytes (encoded pair = 65 500) and a 65 501-byte body"})
 
